@@ -96,4 +96,86 @@ Proof.
       * apply negb_true_iff in H2. exact H2.
 Qed.
 
+(** (2) the trial counts *)
+Let M := list_max (min_trials_of cs).
+
+Lemma praw_eq : praw p design crossing ics rcc ef = Z.of_nat M.
+Proof.
+  unfold praw. rewrite min_trials_raw_eq.
+  change (fl_constraints (st_flat (the_ci p design crossing ics rcc ef) [psize p design crossing ics] [0]))
+    with (st_cons (the_ci p design crossing ics rcc ef)).
+  unfold st_cons. cbn [the_ci ci_design ci_constraints ci_sustains existsb Nat.eqb negb orb app fold_left min_step].
+  rewrite app_nil_r. rewrite (min_fold_cs p design (map (mkff p) design) cs ics Hics 0%Z) by lia. fold M. lia.
+Qed.
+
+Lemma pT_eq : pT p design crossing ics rcc ef = Z.of_nat (Nat.max (Nat.max S 1) M).
+Proof. unfold pT. rewrite praw_eq. fold S. lia. Qed.
+
+Lemma pw_eq : 0 < S -> pw p design crossing ics rcc ef = Z.of_nat (ceil_div (Nat.max (Nat.max S 1) M) S).
+Proof.
+  intro HS. unfold pw. rewrite pT_eq. fold S. set (T := Nat.max (Nat.max S 1) M). unfold ceil_div.
+  rewrite Nat2Z.inj_div. rewrite Z.div_1_r. f_equal. lia.
+Qed.
+
+(** (3) the code's combinations, over the level tuples *)
+Lemma NoDup_cr : NoDup cr.
+Proof.
+  unfold cr. apply NoDup_map_inj_in; [exact HndC|]. intros f g Hf Hg E.
+  pose proof (Hpos f Hf) as E1. pose proof (Hpos g Hg) as E2. rewrite E in E1. congruence.
+Qed.
+
+Section CodeCombos.
+Variable fb : flat.
+Hypothesis Hd : fl_design fb = fds.
+Hypothesis Hex : fl_exclude fb = excl.
+Hypothesis Hexd : fl_excluded_derived fb = [].
+
+Lemma code_excluded : forall ls, In ls (IP p crossing) ->
+  is_excluded_or_inconsistent fb (combine cr ls) = exI design crossing excl ls.
+Proof.
+  intros ls Hls. unfold is_excluded_or_inconsistent.
+  rewrite (existsb_false (fun pr : nat * nat => match Layout.factor_at fb (fst pr) with
+                                                 | Some fd => match ff_window fd with Some w => _ | None => false end
+                                                 | None => false end)).
+  2:{ intros [c l] _. cbn [fst]. unfold Layout.factor_at. rewrite Hd. unfold fds. rewrite nth_error_map.
+      destruct (nth_error design c); reflexivity. }
+  rewrite orb_false_r. unfold is_excluded_combination. rewrite Hexd, Hex. cbn [existsb]. rewrite orb_false_r.
+  assert (Hlen : List.length cr = List.length ls) by (unfold cr; rewrite map_length; symmetry; apply (in_IP_length p); exact Hls).
+  assert (Hnd : NoDup (map fst (combine cr ls))) by (rewrite map_fst_combine by exact Hlen; apply NoDup_cr).
+  unfold exI. fold cr. apply existsb_eq_iff. rewrite !existsb_exists. split.
+  - intros [e [He Hl]]. unfold level_is in Hl. destruct (lookup_level (combine cr ls) (fst e)) as [l|] eqn:E; [|discriminate].
+    apply Nat.eqb_eq in Hl. apply lookup_level_some in E. exists (fst e, l). split; [exact E|].
+    unfold memP. apply existsb_exists. exists e. split; [exact He|]. cbn [fst snd]. rewrite Nat.eqb_refl. cbn. apply Nat.eqb_eq. symmetry. exact Hl.
+  - intros [[c l] [Hin Hm]]. unfold memP in Hm. apply existsb_exists in Hm. destruct Hm as [e [He Hm]]. cbn [fst snd] in Hm.
+    apply andb_true_iff in Hm. destruct Hm as [H1 H2]. apply Nat.eqb_eq in H1, H2. exists e. split; [exact He|].
+    unfold level_is. rewrite H1. rewrite (lookup_level_in _ _ _ Hnd Hin). apply Nat.eqb_eq. symmetry. exact H2.
+Qed.
+
+Lemma code_combinations :
+  trial_combinations_of fb cr = map (fun ls => combine cr ls) (filter (fun ls => negb (exI design crossing excl ls)) (IP p crossing)).
+Proof.
+  unfold trial_combinations_of. unfold cr. rewrite (crossing_combos_IP p design crossing Hpos fb Hd).
+  rewrite filter_map_comm. rewrite (map_ext _ _ (zipw_pos_combine design crossing)). f_equal.
+  apply filter_ext_in. intros ls Hls. rewrite (zipw_pos_combine design crossing ls).
+  pose proof (code_excluded ls Hls) as E. unfold cr in E. rewrite E. reflexivity.
+Qed.
+
+Lemma code_weight_gen : forall (fs ls : list nat) a,
+  (forall f, In f fs -> In f crossing) -> Forall2 (fun l f => l < nlv p f) ls fs ->
+  fold_left (fun n pr => n * level_weight fb (fst pr) (snd pr)) (combine (map (pos design) fs) ls) a
+  = fold_left Nat.mul (map (fun xy => wt p (fst xy) (snd xy)) (combine fs ls)) a.
+Proof.
+  intros fs ls a Hin H. revert a. induction H as [|l f ls fs Hl _ IH]; intro a; [reflexivity|].
+  cbn [map combine fold_left fst snd].
+  rewrite (level_weight_pos p design crossing Hpos fb Hd f l (Hin f (or_introl eq_refl)) Hl).
+  apply IH. intros g Hg. apply Hin. right. exact Hg.
+Qed.
+
+Lemma code_weight : forall ls, In ls (IP p crossing) -> combination_weight fb (combine cr ls) = W p crossing ls.
+Proof.
+  intros ls Hls. unfold combination_weight, W, prod_list, zipw, cr. apply code_weight_gen; [auto|]. apply in_IP_lt. exact Hls.
+Qed.
+
+End CodeCombos.
+
 End Main.
